@@ -106,6 +106,9 @@ class Gen:
             if d > 0:
                 for _ in range(rng.randrange(0, width)):
                     out += inv(d - 1)
+            if rng.random() < 0.15:
+                # the callback body creates a short-lived helper sandbox (number 2), invokes a function in it and destroys it
+                out += ["I", "2", str(rng.randrange(-1000, 1000)), rng.choice(["n", "nv"]), "E"]
             return out + ["E"]
 
         for _ in range(rng.randrange(1, 3)):
@@ -130,12 +133,12 @@ def oracle_c19(toks, line):
     if "STALE-STATE" in evs:
         return False      # a notification carried a transition state other than the sandbox's current one
     stack = []
-    cross = [0, 0]
+    cross = [0, 0, 0]     # (sandbox 2: the helper sandbox of `I 2 ...` nodes; its timing records die with it)
     for e in evs:
         m = re.match(r"(iI|oI)(\d):(\S+)$", e)
         if m:
             kind, sb, name = m.group(1), int(m.group(2)), m.group(3)
-            if name != "gl_node" or sb > 1:
+            if name != "gl_node" or sb > 2:
                 return False
             if kind == "iI":
                 if stack and stack[-1][0] != "C":
